@@ -226,11 +226,16 @@ PROPS = {
                 assumptions=["B6 (column-wise / record-wise moves with one index map move whole polynomial elements)"],
                 not_decided=["where, choose, full, full_like, broadcast_arrays, iteration (bounded only)",
                              "which element numpy places where (numpy semantics: bounded conformance)"]),
-    "C10": dict(level="other", contracts=["numpoly.simple_dispatch", "numpoly.sum", "numpoly.cumsum", "numpoly.mean"],
+    "C10": dict(level="other", contracts=["numpoly.simple_dispatch", "numpoly.sum", "numpoly.cumsum", "numpoly.mean", "numpoly.diff",
+                                          "numpoly.multiply"],
                 explanation="sum/cumsum/mean are proved to apply numpy.sum/cumsum/mean to every coefficient column of the operand with "
                 "axis/dtype/keepdims forwarded unchanged (contract of simple_dispatch: every column written, rows/names kept); that a "
-                "linear column-wise reduction denotes the finite sum of the elements is bridge B5. prod, diff, ediff1d, inner, outer, "
-                "matmul, det: bounded run-time checks (conc/checks_c10.py).",
+                "linear column-wise reduction denotes the finite sum of the elements is bridge B5. diff is proved: the operands "
+                "(a, append, prepend) are aligned to common terms, numpy.diff is applied to the columns of ONE term of each with n and "
+                "axis forwarded, for every term (first iteration peeled: allocation; loop invariant: definedness), result dtype = "
+                "numpy's promotion. multiply (on which prod, outer, inner, matmul, det are built) is proved at coefficient level "
+                "(C01). prod, ediff1d, inner, outer, matmul, det themselves (axis/index algebra): bounded run-time checks "
+                "(conc/checks_c10.py).",
                 trusted_base=COMMON_TRUSTED),
     "C11": dict(level="other", contracts=["numpoly.isconstant", "numpoly.tonumpy", "numpoly.absolute", "numpoly.ceil", "numpoly.floor",
                                           "numpoly.rint", "numpoly.around", "numpoly.true_divide", "numpoly.floor_divide",
@@ -257,10 +262,14 @@ PROPS = {
                 "catalogue (14 dtypes, casts, promotion) is a bounded run-time check with 0xA5-poisoned buffers.",
                 trusted_base=COMMON_TRUSTED + ["assumed contract of ndpoly.__new__ and of the compiled cfrom_attributes"]),
     "C19": dict(level="other", contracts=["numpoly.lead_coefficient", "numpoly.lead_exponent", "numpoly.isconstant", "numpoly.tonumpy",
-                                          "numpoly.glexsort", "numpoly.ndpoly.todict"],
+                                          "numpoly.glexsort", "numpoly.ndpoly.todict", "numpoly.decompose", "numpoly.set_dimensions"],
                 explanation="lead_exponent/lead_coefficient (largest non-zero term under the symbolic (graded, reverse) order, zeros "
-                "for the zero polynomial), isconstant, tonumpy (raises exactly for non-constants) are proved; todict, decompose, "
-                "set_dimensions, sortable_proxy, argmax/argmin/amax/amin: bounded run-time checks (conc/checks_c19.py).",
+                "for the zero polynomial), isconstant, tonumpy (raises exactly for non-constants), todict are proved; decompose: shape "
+                "(N,)+shape and, for an arbitrary t, slice t is built from the single exponent row t and coefficient column t with "
+                "nothing pruned; set_dimensions with fewer (or as many) indeterminates: exactly the terms free of the dropped "
+                "indeterminates survive, with their kept exponents and coefficients, first k names, dtype kept, zero polynomial only "
+                "when nothing survives. Adding indeterminates, sortable_proxy, argmax/argmin/amax/amin: bounded run-time checks "
+                "(conc/checks_c19.py).",
                 trusted_base=COMMON_TRUSTED + ["glexsort contract (proved, C18)", "ndpoly accessor model"]),
     "C20": dict(level="other", contracts=["numpoly.ndpoly", "numpoly.ndpoly.exponents", "numpoly.derivative", "numpoly.multiply",
                                           "numpoly.power"],
